@@ -18,7 +18,7 @@ PROPS = {
         theorems=['C12_deleg_total', 'C12_deleg_bounds', 'C12_undeleg_total', 'C12_deleg_err_iff', 'C12_undeleg_err_iff'],
         kernels=['deleg', 'undeleg'],
         scenarios=['basic.ops'],
-        profiles=[],
+        profiles=['registry'],
         keys=['m delegate', 'm undelegate', 'm redelegate', 'del '],
         ops=[r'^$'],
         assumes=['model functions deleg/undeleg are tied to calculate_delegations/calculate_undelegations by the kernel streams of this run'],
@@ -30,7 +30,7 @@ PROPS = {
                   'C17_rate_le_one_step', 'C17_no_zero_transfer', 'C17_known_F2_witness'],
         kernels=['swapinfo'],
         scenarios=['basic.ops'],
-        profiles=[],
+        profiles=['rewards'],
         keys=['m bank disp', 'm wasm disp', 'm wasm hub disp', 'dp.', 'bank disp', 'bank keeper'],
         ops=[r'^disp ', r'^inst_disp', r'^hub \S+ updateglobal'],
         assumes=['swap and oracle stubs of PROTOCOL.md section 4 (E7)', 'bank rejects zero-coin sends (E5)'],
